@@ -2035,3 +2035,160 @@ Proof.
       pose proof (to_float64_ok n) as P. destruct (to_float64 (VNum n)) as [r|er]; cbn in *; [eauto|exact P].
 Qed.
 End Main.
+
+(* ================================================================== Part 7 *)
+(* struct declarations without embedded fields: Go's selector rule only finds declared fields *)
+Lemma own_matches_named name fs : forall i p f, In (p, f) (own_matches name i fs) -> In f fs /\ is_named name f = true.
+Proof.
+  induction fs as [|g r IH]; intros i p f H; cbn [own_matches] in H; [destruct H|].
+  apply in_app_or in H. destruct H as [H|H].
+  - destruct (is_named name g) eqn:E; [|destruct H]. destruct H as [H|[]]. inversion H; subst. split; [left; reflexivity|exact E].
+  - destruct (IH _ _ _ H) as [A B]. split; [right; exact A|exact B].
+Qed.
+
+Lemma flat_resolve te sn name pth ft ex :
+  forallb (fun f => negb (fd_anon f)) (fields_of te (TStruct sn)) = true ->
+  go_resolve_field te sn name = RField pth ft ex ->
+  exists f, In f (fields_of te (TStruct sn)) /\ fd_name f = name /\ fd_ty f = ft /\ fd_exp f = ex.
+Proof.
+  intros Hflat R. unfold go_resolve_field in R. apply search_inv in R.
+  destruct R as (d & f & Ha & -> & -> & _). destruct d as [|d].
+  - rewrite at_depth_0 in Ha. assert (In (pth, f) (own_matches name 0 (fields_of te (TStruct sn)))) as Hin by (rewrite Ha; left; reflexivity).
+    destruct (own_matches_named _ _ _ _ _ Hin) as [A B]. exists f. repeat split; auto. apply String.eqb_eq. exact B.
+  - rewrite at_depth_S, emb_collect_nil in Ha; [discriminate|].
+    intros g m Hin Em. unfold emb_target in Em.
+    rewrite (proj1 (negb_true_iff _) (proj1 (forallb_forall _ _) Hflat g Hin)) in Em. discriminate.
+Qed.
+
+Module SWit.
+Definition tint := TNum KInt.
+Definition fld (n : string) (t : ty) : fielddef := mkField n t false true.
+Definition t_inc := TFunc [tint] false [tint].
+Definition t_fs := TFunc [TString] false [TString].
+Definition t_myint := TNamed "MyInt" tint.
+Definition t_get := TFunc [] false [tint].
+
+Definition te : tenv :=
+  [("Env", mkStruct
+      [fld "I" tint; fld "F" (TNum KF64); fld "S" TString; fld "B" TBool; fld "AI" (TSlice tint);
+       fld "MI" (TMap TString tint); fld "AA" (TSlice TIface); fld "In" (TStruct "Inner");
+       fld "P" (TPtr (TStruct "Inner")); fld "Inc" t_inc; fld "FS" t_fs; fld "M" t_myint; fld "PI" (TPtr tint)]
+      [("Twice", TFunc [TStruct "Env"; tint] false [tint])]
+      [("Twice", TFunc [TPtr (TStruct "Env"); tint] false [tint])]);
+   ("Inner", mkStruct [fld "X" tint]
+      [("Get", TFunc [TStruct "Inner"] false [tint])]
+      [("Get", TFunc [TPtr (TStruct "Inner")] false [tint])])].
+
+Definition tb : TypesTable.table :=
+  match create_types_table te perm_id (EStruct (TStruct "Env")) with Some t => t | None => [] end.
+
+Definition cc (expect : option rkind) : cconfig := mkCC te (Some tb) [] expect true None.
+Definition c : cconfig := cc None.
+
+Definition inner : value := VStruct "Inner" false [("X", vint 7)].
+Definition env : value :=
+  VStruct "Env" false
+    [("I", vint 3); ("F", VNum (NFlt KF64 1.5)); ("S", VStr "abc"); ("B", VBool false);
+     ("AI", VArr tint [vint 1; vint 5; vint 9]); ("MI", VMap TString tint [(VStr "a", vint 1)]);
+     ("AA", VArr TIface [vint 1; VStr "x"]); ("In", inner); ("P", VNilPtr (TStruct "Inner"));
+     ("Inc", VFunc "Inc" t_inc); ("FS", VFunc "FS" t_fs); ("M", VNamed "MyInt" (vint 1)); ("PI", VNilPtr tint)].
+
+Definition ftab (id : string) : option ty :=
+  if String.eqb id "Inc" then Some t_inc
+  else if String.eqb id "FS" then Some t_fs
+  else if String.eqb id "Env.Twice" then Some t_inc
+  else if String.eqb id "Inner.Get" then Some t_get
+  else None.
+
+Definition run (id : string) (recv : value) (args : list value) : outcome value :=
+  if String.eqb id "Inc" then
+    match args with [VNum (NInt KInt a)] => Ok (vint (wrap KInt (a + 1))) | _ => Fail EOther end
+  else if String.eqb id "FS" then
+    match args with [VStr a] => Ok (VStr (a ++ "!")) | _ => Fail EOther end
+  else if String.eqb id "Env.Twice" then
+    match args with [VNum (NInt KInt a)] => Ok (vint (wrap KInt (2 * a))) | _ => Fail EOther end
+  else if String.eqb id "Inner.Get" then
+    match recv with
+    | VStruct _ _ fields => match assoc_str "X" fields with Some (VNum (NInt KInt x)) => Ok (vint x) | _ => Fail EOther end
+    | _ => Fail ENilDeref
+    end
+  else Fail EOther.
+
+Definition meth (tn : string) (p : bool) (name : string) : option string :=
+  if String.eqb "Env" tn then (if String.eqb "Twice" name then Some "Env.Twice" else None)
+  else if String.eqb "Inner" tn then (if String.eqb "Get" name then Some "Inner.Get" else None)
+  else None.
+
+Definition sig (id : string) : option fsig :=
+  match ftab id with
+  | Some (TFunc ins v [o]) => Some (mkSig ins v 1 (fast_sig (TFunc ins v [o]) false))
+  | _ => None
+  end.
+
+Definition fe : fenv := mkFenv sig run meth (fun _ _ => Some true) (fun x _ => x).
+Definition cfg : config := mkCfg false 1000.
+
+Lemma perm_ok : forall l : TypesTable.table, Permutation (perm_id l) l.
+Proof. intros l. apply Permutation_refl. Qed.
+
+Lemma te_wf : wf_tenv te = true.
+Proof. vm_compute. reflexivity. Qed.
+
+Lemma inner_wf : vwf te ftab inner.
+Proof.
+  apply vwf_struct. split.
+  - repeat (apply Forall_cons; [split; cbn [fst snd]|]); try apply Forall_nil.
+    + reflexivity.
+    + intros pth ft R; vm_compute in R; inversion R; subst; right; reflexivity.
+  - intros name pth ft R. destruct (flat_resolve te "Inner" name pth ft true eq_refl R) as (f & Hin & <- & _ & _).
+    cbn in Hin. repeat (destruct Hin as [<-|Hin]; [cbn; discriminate|]). destruct Hin.
+Qed.
+
+Lemma env_wf : vwf te ftab env.
+Proof.
+  apply vwf_struct. split.
+  - repeat (apply Forall_cons; [split; cbn [fst snd]|]); try apply Forall_nil;
+      try (intros pth ft R; vm_compute in R; inversion R; subst; first [right; reflexivity | left; reflexivity]).
+    all: try exact inner_wf.
+    all: cbn; repeat split; auto; first [right; reflexivity | left; reflexivity].
+  - intros name pth ft R. destruct (flat_resolve te "Env" name pth ft true eq_refl R) as (f & Hin & <- & _ & _).
+    cbn in Hin. repeat (destruct Hin as [<-|Hin]; [cbn; discriminate|]). destruct Hin.
+Qed.
+
+Lemma env_is_ok k : env_ok (cc k) perm_id ftab (TStruct "Env") "Env" env.
+Proof.
+  constructor.
+  - reflexivity.
+  - exists tb. split; [reflexivity|]. vm_compute. reflexivity.
+  - exists false, (match env with VStruct _ _ fs => fs | _ => [] end). split; reflexivity.
+  - exact env_wf.
+Qed.
+
+Lemma fe_ok : fenv_ok te ftab fe.
+Proof.
+  constructor.
+  - intros id ins v o H. cbn [fn_sig fe]. unfold sig. rewrite H. reflexivity.
+  - intros id ins v o recv args r Hf Hr. cbn [fn_run fe] in Hr. unfold run in Hr. unfold ftab in Hf.
+    repeat match type of Hr with
+    | (if ?b then _ else _) = _ => destruct b
+    | match ?x with _ => _ end = _ => destruct x
+    end; try discriminate Hr; inversion Hr; inversion Hf; subst; first [apply ty_vint | apply ty_str].
+  - intros id recv args e Hr. cbn [fn_run fe] in Hr. unfold run in Hr.
+    repeat match type of Hr with
+    | (if ?b then _ else _) = _ => destruct b
+    | match ?x with _ => _ end = _ => destruct x
+    end; inversion Hr; reflexivity.
+  - intros sn p name mt H. cbn [fn_method fe]. unfold meth, method_by_name, method_set, recv_ty in *.
+    destruct p; cbn [lookup_struct te] in H;
+      (destruct (String.eqb "Env" sn) eqn:E1;
+       [cbn -[String.eqb] in H; destruct (String.eqb "Twice" name); inversion H; eexists; split; reflexivity|]);
+      (destruct (String.eqb "Inner" sn) eqn:E2;
+       [cbn -[String.eqb] in H; destruct (String.eqb "Get" name); inversion H; eexists; split; reflexivity|]);
+      discriminate.
+  - intros sn p name H. cbn [fn_method fe]. unfold meth, method_by_name, method_set, recv_ty in *.
+    destruct p; cbn [lookup_struct te] in H;
+      (destruct (String.eqb "Env" sn) eqn:E1; [cbn -[String.eqb] in H; destruct (String.eqb "Twice" name); [discriminate|reflexivity]|]);
+      (destruct (String.eqb "Inner" sn) eqn:E2; [cbn -[String.eqb] in H; destruct (String.eqb "Get" name); [discriminate|reflexivity]|]);
+      reflexivity.
+Qed.
+End SWit.
